@@ -562,7 +562,7 @@ func init() {
 			"non-trivial = block with at least one successful merge and at least one discard or stale merge; distinct by trace hash",
 		Cases: func(tier string) int {
 			if tier == "thorough" {
-				return 800000
+				return 500000
 			}
 			return 40000
 		},
